@@ -128,7 +128,7 @@ ALL_MENU = (
     "ins:raise", "ins:probe", "ins:res", "ins:mkitem", "ins:mkchild", "ins:sync", "ins:iv", "ins:yempty", "ins:ynone",
     "wrap:try", "wrap:A", "wrap:N", "wrap:S0", "wrap:S1", "wrap:P0", "wrap:Xp", "wrap:Xr", "wrap:Xq",
     "flush:raise", "flush:raiseB", "flush:new", "flush:setraise", "flush:nested",
-    "leaf:dd", "ins:ddirty", "item:errf", "ins:caught", "leaf:cw",
+    "leaf:dd", "ins:ddirty", "item:errf", "ins:caught", "leaf:cw", "wrap:ovl", "leaf:bt",
 )
 DD_ALTS = (("f", 1, "pos"), ("f", 1, "kw"), ("f", 1, "def"), ("f", 2, "pos"), ("g", 1, "pos"),
            ("mx", 1, "pos"), ("mx", 1, "mix"), ("my", 1, "pos"), ("s", 1, "pos"), ("sx", 1, "def"), ("h", 1, "pos"),
@@ -193,6 +193,8 @@ def _count_made(stmts):
             n += _count_made(st[1])
         elif op == "with":
             n += _count_made(st[2])
+        elif op == "ovl":
+            n += _count_made(st[1]) + _count_made(st[2])
     return n
 
 
@@ -227,6 +229,13 @@ def _block_variants(stmts, ctx, allow_shared, made_before):
         elif op == "with":
             for nb, nsh in _block_variants(st[2], ctx, allow_shared, [made]):
                 yield stmts[:i] + (("with", st[1], nb),) + stmts[i + 1:], nsh
+            made += _count_made(st[2])
+        elif op == "ovl":
+            for nb, nsh in _block_variants(st[1], ctx, allow_shared, [made]):
+                yield stmts[:i] + (("ovl", nb, st[2]),) + stmts[i + 1:], nsh
+            made += _count_made(st[1])
+            for nb, nsh in _block_variants(st[2], ctx, allow_shared, [made]):
+                yield stmts[:i] + (("ovl", st[1], nb),) + stmts[i + 1:], nsh
             made += _count_made(st[2])
         elif op == "sync":
             for nt, nsh in _task_variants(st[1], ctx, allow_shared):
@@ -274,6 +283,11 @@ def _block_variants(stmts, ctx, allow_shared, made_before):
     for ck in ("A", "N", "S0", "S1", "P0", "Xp", "Xr", "Xq"):
         if "wrap:" + ck in menu:
             wraps.append(lambda body, ck=ck: ("with", ck, body))
+    if "wrap:ovl" in menu:
+        for i in range(n):
+            for j in range(i + 1, n + 1):
+                for m in range(i + 1, j + 1):
+                    yield stmts[:i] + (("ovl", stmts[i:m], stmts[m:j]),) + stmts[j:], None
     if wraps:
         for i in range(n):
             for j in range(i + 1, n + 1):
@@ -324,6 +338,8 @@ def _struct_variants(s, ctx, allow_shared, made, top):
             yield ("lz", "raise"), None
         if "leaf:nf" in menu:
             yield ("nf",), None
+        if "leaf:bt" in menu:
+            yield ("bt", "a"), None
         if "leaf:re" in menu:
             for j in range(made):
                 yield ("re", j), None
